@@ -703,6 +703,7 @@ func doCheck(repo, verif, prop string, pc propConf, tier string, seed uint64, wo
 		}
 		return code, string(rout)
 	}
+	minStart := time.Now()
 	for i := range tot.Violations {
 		v := &tot.Violations[i]
 		if seen[v.key()] {
@@ -735,9 +736,17 @@ func doCheck(repo, verif, prop string, pc propConf, tier string, seed uint64, wo
 			os.WriteFile(raw, rb, 0o644)
 			name := fmt.Sprintf("%s-%s-%s-seed%d-run%d.json", prop, sanitize(c.Oracle), sanitize(c.Class+"-"+c.Site), seed, c.RunIndex)
 			final := filepath.Join(verif, "replays", name)
-			mc := exec.Command(bin, "-mode", "minimize", "-file", raw, "-out", final)
-			mc.Env = append(os.Environ(), "GOMAXPROCS=1", "GOMEMLIMIT=3GiB")
-			mout, merr := mc.CombinedOutput()
+			// Minimisation is a courtesy with a budget per invocation (8 minutes in all): a check
+			// that found many classes on long scenarios once spent over half an hour shrinking
+			// them. Beyond the budget the raw file - which must still reproduce in a fresh
+			// process - is reported.
+			var mout []byte
+			merr := fmt.Errorf("minimisation budget of this invocation used up")
+			if time.Since(minStart) < 8*time.Minute {
+				mc := exec.Command(bin, "-mode", "minimize", "-file", raw, "-out", final)
+				mc.Env = append(os.Environ(), "GOMAXPROCS=1", "GOMEMLIMIT=3GiB")
+				mout, merr = mc.CombinedOutput()
+			}
 			minimised := merr == nil
 			if minimised {
 				fmt.Printf("vcheck: %s", mout)
